@@ -7,9 +7,9 @@ From VV Require Import SmallVec.SmallVecDefs.
 Import ListNotations.
 Local Open Scope Z_scope.
 
-Definition Pint (S : nat) : params := mkParams S true 0 (fun x => x).
-Definition Pstr (S : nat) : params := mkParams S false 0 (fun _ => 0).
-Definition Ptrk (S : nat) : params := mkParams S false 0 (fun _ => -1).
+Definition Pint (S : nat) : params := mkParams S true 0 (fun x => x) Z.eqb Z.ltb.
+Definition Pstr (S : nat) : params := mkParams S false 0 (fun _ => 0) Z.eqb Z.ltb.
+Definition Ptrk (S : nat) : params := mkParams S false 0 (fun _ => -1) Z.eqb Z.ltb.
 Definition a := false.
 Definition b := true.
 
